@@ -25,7 +25,7 @@ def main():
         "hooks": {
             "guard": "GAMA_VERIF",
             "enable": "checks compile /repo's working tree with -DGAMA_VERIF (cmake -DCMAKE_CXX_FLAGS / g++ -DGAMA_VERIF); no source hook is currently needed: harnesses reach private state with '#define private public' inside their own translation units",
-            "baseline_off_cmd": "ctest --test-dir /repo/_build -j8 --timeout 900",
+            "baseline_off_cmd": "ctest --test-dir /repo/_build -j1 --timeout 900",
             "source_commits": HOOK_COMMITS,
             "add_only": True,
         },
